@@ -5,5 +5,7 @@ CONSTANTS
   AsFound_SignedRelativeTest = FALSE
   AsFound_NearZeroBandIgnoresDrift = FALSE
   AsFound_ExclusionBySubstring = FALSE
+  AsFound_DecorativeUntested = FALSE
+  AsFound_DecorativeExcluded = FALSE
 POSTCONDITION AllConsumed
 CHECK_DEADLOCK FALSE
